@@ -488,7 +488,8 @@ pub fn run(tier: Tier, seed: u64) -> i32 {
         }
         let mut w = sh;
         while w < n_worlds_exh {
-            for depth in 1..=4usize {
+            let max_depth = if tier == Tier::Thorough && w % 4 == 0 { 5usize } else { 4 };
+            for depth in 1..=max_depth {
                 for code in 0..6usize.pow(depth as u32) {
                     let mut r = Sm::derive(seed, &[1800, w as u64]);
                     let case = make_case(&mut r, w, Some((code, depth)));
